@@ -70,11 +70,25 @@ def run_case(case):
         if case.get('connect_raises'):
             dev.FakeLink.connect_raises = case['connect_raises']
 
+        def completeness():
+            """what the property requires at connected / fully_connected, read off the library's own tables"""
+            try:
+                n_log = sum(len(g) for g in cf.log.toc.toc.values())
+                n_par = sum(len(g) for g in cf.param.toc.toc.values())
+                missing = [g + '.' + n for g in cf.param.toc.toc for n in cf.param.toc.toc[g]
+                           if n not in cf.param.values.get(g, {})]
+            except Exception as e:          # noqa
+                return {'error': repr(e)}
+            return {'n_log': n_log, 'n_param': n_par, 'params_without_value': missing}
+
         def rec(name):
             def f(*a):
                 if name == 'connection_requested':
                     attempt[0] += 1
-                log.append(['cb', name, S.name(), attempt[0]])
+                e = ['cb', name, S.name(), attempt[0]]
+                if name in ('connected', 'fully_connected'):
+                    e.append(completeness())
+                log.append(e)
             return f
         for n in CALLERS:
             getattr(cf, n).add_callback(rec(n))
